@@ -29,6 +29,12 @@ BOUNDS = {"quick": dict(N=3), "thorough": dict(N=4)}
 OUTSIDE = ["events: only the callback count / visibility under the events oracle (C20 events-* instances); nfev with events is not asserted", "torch backend"]
 
 
+ASSUMPTIONS = list(globals().get("ASSUMPTIONS", [])) + [
+    "callback-unsubscribes-itself: the first callback removes itself from the caller's list at its first invocation",
+    "callback-dt-short-call-then-continuation: first call's target nearer than the working step, its callbacks assign dt = g <= remaining distance <= 2g",
+]
+
+
 def instances(tier):
     out = []
     N = 3 if tier == "quick" else 4
